@@ -155,3 +155,26 @@ class Ether:
             with rs.quiet():
                 self.stations[name].gn.gn_data_indicate(frame)
         return n
+
+    def pump_lag(self, lag=()):
+        """medium that is FIFO per receiver with LAGGING receivers (additive, C01 round 4): every transmitted frame
+        becomes one (receiver, frame) pair per station in range; the oldest pending pair whose receiver is not in
+        `lag` is delivered until only pairs for lagging receivers are left.  The stations in `lag` keep transmitting
+        and are heard; they hear nothing until a later call without them.  Returns the number of deliveries."""
+        n = 0
+        while True:
+            while self.queue:
+                sender, frame = self.queue.pop(0)
+                self.log.append((sender, frame))
+                for name in self.stations:
+                    if self.hears(sender, name):
+                        self.pairs.append((name, sender, frame))
+            k = next((i for i, p in enumerate(self.pairs) if p[0] not in lag), None)
+            if k is None:
+                return n
+            name, _sender, frame = self.pairs.pop(k)
+            n += 1
+            if n > self.max_frames * max(1, len(self.stations)):
+                raise RuntimeError("ether: flood does not terminate")
+            with rs.quiet():
+                self.stations[name].gn.gn_data_indicate(frame)
